@@ -47,15 +47,9 @@ func (vc *VC) modSetOf(spec *FuncSpec, pre *SpecEnv) modSet {
 	for _, m := range spec.Modifies {
 		switch m.K {
 		case "sel":
-			if m.X.K == "id" {
-				if _, bound := pre.vars[m.X.Name]; !bound {
-					if o := pre.lookupObj(m.X.Name); o != nil {
-						if tn, ok := o.(*types.TypeName); ok {
-							fieldOf(tn.Type(), m.Name, nil, true, m)
-							continue
-						}
-					}
-				}
+			if tn := pre.typeNameOf(m.X); tn != nil {
+				fieldOf(tn.Type(), m.Name, nil, true, m)
+				continue
 			}
 			x := pre.eval(m.X)
 			p, ok := x.Ty.Underlying().(*types.Pointer)
@@ -250,4 +244,45 @@ func (vc *VC) checkFrame(s *State, spec *FuncSpec, post *SpecEnv) {
 		goal := Forall([]*Term{r}, Implies(And(conds...), Eq(Select(cur, r), Select(old, r))))
 		vc.obligeKeep(s, "frame", name, "heap array "+name+" unchanged outside the modifies clause (objects allocated at entry)", pos, goal)
 	}
+}
+
+// typeNameOf resolves T or pkg.T to a type name (nil if e does not denote a type).
+func (env *SpecEnv) typeNameOf(e *SExpr) *types.TypeName {
+	switch e.K {
+	case "id":
+		if _, bound := env.vars[e.Name]; bound {
+			return nil
+		}
+		if o := env.lookupObj(e.Name); o != nil {
+			if tn, ok := o.(*types.TypeName); ok {
+				return tn
+			}
+		}
+	case "sel":
+		if e.X.K != "id" {
+			return nil
+		}
+		if _, bound := env.vars[e.X.Name]; bound {
+			return nil
+		}
+		var pkg *types.Package
+		if o := env.lookupObj(e.X.Name); o != nil {
+			if pn, ok := o.(*types.PkgName); ok {
+				pkg = pn.Imported()
+			}
+		}
+		if pkg == nil && env.pkg != nil {
+			for _, imp := range env.pkg.Types.Imports() {
+				if imp.Name() == e.X.Name {
+					pkg = imp
+				}
+			}
+		}
+		if pkg != nil {
+			if tn, ok := pkg.Scope().Lookup(e.Name).(*types.TypeName); ok {
+				return tn
+			}
+		}
+	}
+	return nil
 }
